@@ -3,7 +3,6 @@
 package p2p
 
 import (
-	comm "github.com/ChainSafe/sygma-relayer/comm"
 	"github.com/libp2p/go-libp2p/core/network"
 	"github.com/libp2p/go-libp2p/core/peer"
 )
@@ -20,27 +19,4 @@ func VerifNewCommunication() Libp2pCommunication {
 // VerifAddStream registers an outbound stream of a session, as sendMessage does.
 func (c Libp2pCommunication) VerifAddStream(sessionID string, p peer.ID, s network.Stream) {
 	c.streamManager.AddStream(sessionID, p, s)
-}
-
-// VerifSub is one retained leaf entry of subscribersMap.
-type VerifSub struct {
-	Session string
-	Type    comm.MessageType
-	Key     string
-	Ch      chan *comm.WrappedMessage
-}
-
-// VerifDump lists every retained (session, type, key, channel) entry of the unexported subscribersMap.
-func (ms *SessionSubscriptionManager) VerifDump() []VerifSub {
-	ms.lock.Lock()
-	defer ms.lock.Unlock()
-	out := []VerifSub{}
-	for s, byType := range ms.subscribersMap {
-		for t, byKey := range byType {
-			for k, ch := range byKey {
-				out = append(out, VerifSub{Session: s, Type: t, Key: k, Ch: ch})
-			}
-		}
-	}
-	return out
 }
